@@ -547,7 +547,16 @@ int SimulateMsp430::one_operand_exe(uint16_t opcode)
   o = (opcode & 0x0380) >> 7;
 
   if (o == 7) { return 1; }
-  if (o == 6) { return count; }
+
+  if (o == 6) // RETI
+  {
+    reg[2] = ram_read16(reg[1]);
+    reg[1] += 2;
+    reg[0] = ram_read16(reg[1]);
+    reg[1] += 2;
+
+    return count;
+  }
 
   As = (opcode & 0x0030) >> 4;
   bw = (opcode & 0x0040) >> 6;
